@@ -91,6 +91,9 @@ class Z3Seam:
         self.plan = {}  # (op_index, nth) -> (kind, phase)   nth is 1-based
         self.fired = []
         self.on_check = None  # optional callback(solver)  (C20 confinement monitor / scheduler boundary)
+        self.rlimit = 0  # > 0: every check runs under this Z3 resource budget (string phases: Z3's sequence solver can
+        #                  loop for minutes; a budget is deterministic where a wall-clock timeout is not)
+        self.op_gave_up = 0  # checks of the current op that Z3 really answered "unknown" under that budget
         self.per_thread = None  # C20: thread ident -> that thread's seam
 
     def install(self):
@@ -142,6 +145,15 @@ class Z3Seam:
                 slf._verif_reason = seam.REASONS[kind]
                 return unknown
             slf._verif_reason = None
+            if seam.rlimit:
+                slf.set("rlimit", seam.rlimit)
+                try:
+                    r = orig_check(slf, *assumptions)
+                finally:
+                    slf.set("rlimit", 0)
+                if r == unknown:
+                    seam.op_gave_up += 1
+                return r
             return orig_check(slf, *assumptions)
 
         def reason_unknown(slf):
@@ -161,6 +173,7 @@ class Z3Seam:
     def begin_op(self, idx):
         self.cur_op = idx
         self.op_checks = 0
+        self.op_gave_up = 0
 
 
 _SERIAL = {"n": 0, "salt": 0}
@@ -288,6 +301,10 @@ class Machine:
         except KeyboardInterrupt as e:
             return ("exc", e)
         except Exception as e:  # noqa: BLE001
+            if self.seam is not None and self.seam.op_gave_up and isinstance(e, self.errors.ClaripyError):
+                # Z3 itself gave up under the resource budget of this phase and claripy reported it as an error: the
+                # operation has no answer to judge (what the solver answers afterwards is judged as usual)
+                raise _GaveUp from None
             return ("exc", e)
 
     def exc_detail(self, e):
@@ -333,6 +350,9 @@ class Machine:
             except NoVerdict:
                 ans = ["noverdict"]
                 self.stats["noverdict"] = self.stats.get("noverdict", 0) + 1
+            except _GaveUp:
+                ans = ["z3-gave-up"]
+                self.stats["z3_gave_up_ops"] = self.stats.get("z3_gave_up_ops", 0) + 1
             except _Skip as e:
                 ans = ["skip", str(e)]
                 self.stats["skipped"] += 1
@@ -1242,6 +1262,10 @@ class Machine:
 
 
 class _Skip(Exception):
+    pass
+
+
+class _GaveUp(Exception):
     pass
 
 
